@@ -24,7 +24,7 @@ LEVEL_NOTE = ("trusts the simulated network (source address, unicast/multicast f
               "black-holed transport followed by dropping the stack, a restart a fresh protocol object on the same address")
 TIEBREAK_VARIANTS = True  # thorough tier: some shards run equal-deadline timers LIFO / in seeded random order
 RULE = (
-    "configurations: 8 finite-TTL timing sets (TTL > cyclic period, subscribe TTL > refresh, repetitions 0-3, collection timeout 0 or "
+    "configurations: 8 fixed and seeded random finite-TTL timing sets (TTL > cyclic period, subscribe TTL > refresh, repetitions 0-3, collection timeout 0 or "
     "not, network latency 0 or not) and 1 infinite-TTL set (lossless, crashes followed by restarts); disturbance kinds: graceful "
     "stop+start and final stop of either side, crash+restart and final crash of either side, loss / duplication / reordering "
     "windows; single disturbances at every reference instant x 4 placements, then random pairs and scripts of 1-8 disturbances. "
@@ -58,6 +58,19 @@ CONFIGS = [
     dict(name="inf", a_ttl=FOREVER, cyc=1.0, s_ttl=FOREVER, refresh=None, init=(0.0, 0.25), reps=2, base=2.0 ** -4, ct=2.0 ** -8, lat=0.0),
 ]
 RR = (2.0 ** -6, 2.0 ** -4)
+
+
+def random_config(rng):
+    """a seeded timing configuration inside the quantifier: finite TTLs longer than the cyclic / refresh periods"""
+    a_ttl = rng.choice((2, 3, 4, 6))
+    cyc = rng.choice([c for c in (0.25, 0.5, 1.0, 2.0, 3.0) if c < a_ttl])
+    s_ttl = rng.choice((2, 3, 5, 6))
+    refresh = rng.choice([r for r in (0.5, 1.0, 2.0, 3.0, 4.0) if r < s_ttl])
+    lo = rng.choice((0.0, 0.0, 0.125, 0.25))
+    hi = lo + rng.choice((0.0, 0.125, 0.5, 1.0))
+    return dict(name=f"r{rng.randrange(10 ** 6)}", a_ttl=a_ttl, cyc=cyc, s_ttl=s_ttl, refresh=refresh, init=(lo, hi),
+                reps=rng.randrange(0, 4), base=rng.choice((2.0 ** -5, 2.0 ** -4, 2.0 ** -3, 2.0 ** -2)),
+                ct=rng.choice((0.0, 2.0 ** -8, 2.0 ** -6)), lat=rng.choice((0.0, 0.0, 2.0 ** -10, 2.0 ** -7)))
 
 
 def bound(cfg):
@@ -387,7 +400,10 @@ def run(spec, ctx):
 def random_script(ctx, spec, base, i):
     if True:
         rng = random.Random(f"{base}/r/{i}")
-        cfg = rng.choice(CONFIGS)
+        cfg = rng.choice(CONFIGS) if rng.random() < 0.6 else random_config(rng)
+        ctx.note("configurations", cfg["name"] if not cfg["name"].startswith("r") else "random")
+        if cfg["name"].startswith("r"):
+            ctx.count("random_configurations")
         ts, horizon = reference_instants(cfg, "ref")
         n = rng.choice((2, 2, 2, 3, 4, 6, 8)) if i % 3 else 2
         acts, descr, t_last = [], [], 0.0
